@@ -34,6 +34,13 @@ type cGroup struct {
 	startStep int
 	ackStep   int // -1: never acknowledged
 	visAtAck  uint64
+	// crash oracle (concurrent committers, C10): disk log length when the
+	// commit call started / returned, and whether it was acknowledged durable
+	startIdx, ackIdx int
+	sync             bool
+	// flushedBy is the disk log length at which a Flush, begun after this
+	// group was acknowledged, returned (0 = none)
+	flushedAt int
 }
 
 type cRead struct {
@@ -205,6 +212,7 @@ func (h *dbHarness) execConc(c int, op *DBOp) {
 		}
 		cg.count = b.Count()
 		cg.startStep = h.step()
+		cg.startIdx, cg.ackIdx = h.disk.LogLen(), -1
 		cs.groups = append(cs.groups, cg)
 		var err error
 		switch op.Mode {
@@ -215,6 +223,9 @@ func (h *dbHarness) execConc(c int, op *DBOp) {
 				cg.seq = b.VerifsimSeqNum()
 				cg.ackStep = h.step()
 				err = b.SyncWait()
+				if err == nil {
+					cg.sync = true
+				}
 			}
 		case "apply":
 			err = h.db.Apply(b, writeOpts(op.Sync))
@@ -230,6 +241,10 @@ func (h *dbHarness) execConc(c int, op *DBOp) {
 		if cg.ackStep < 0 {
 			cg.ackStep = h.step()
 		}
+		if op.Sync && op.Mode != "nosyncwait" {
+			cg.sync = true
+		}
+		cg.ackIdx = h.disk.LogLen()
 		cg.visAtAck = h.db.VerifsimVisibleSeqNumRaw()
 		b.Close()
 		// read-your-writes, immediately, by the committing client
@@ -282,8 +297,21 @@ func (h *dbHarness) execConc(c int, op *DBOp) {
 			delete(cs.snaps, op.ID)
 		}
 	case "flush":
+		var before []*cGroup
+		for _, g := range cs.groups {
+			if g.ackIdx >= 0 {
+				before = append(before, g)
+			}
+		}
 		if err := h.db.Flush(); err != nil {
 			h.opErr("flush", err)
+		} else {
+			at := h.disk.LogLen()
+			for _, g := range before {
+				if g.flushedAt == 0 {
+					g.flushedAt = at
+				}
+			}
 		}
 	case "compact":
 		if err := h.db.Compact(context.Background(), []byte(op.Key), []byte(op.End), false); err != nil {
@@ -624,4 +652,89 @@ func (h *dbHarness) checkWALOrder(done []*cGroup) {
 			h.count("check.wal_batch", 1)
 		}
 	}
+}
+
+// genCrashConc: several committers with mixed sync modes plus a maintenance
+// client; crash forks are verified after the run (C10 with concurrent
+// committers: an acknowledged Sync commit must survive whatever the other
+// committers and the WAL flush loop were doing).
+func (g *gen) genCrashConc() {
+	writers := 2 + g.r.IntN(3)
+	g.cfg.Clients = writers + 1
+	g.cfg.DisableWAL = false
+	g.cfg.MemTableSize = pick(&g.r, []int{4 << 10, 16 << 10, 64 << 10})
+	perW := 3 + g.r.IntN(8)
+	for w := 0; w < writers; w++ {
+		for i := 0; i < perW; i++ {
+			n := 1 + g.r.IntN(3)
+			b := DBOp{C: w + 1, K: "batch", Sync: g.r.IntN(2) == 0, Mode: pick(&g.r, []string{"apply", "commit", "commit", "nosyncwait"})}
+			for j := 0; j < n; j++ {
+				o := g.pointOp(false)
+				if o.K == "logdata" {
+					o = DBOp{K: "set", Key: g.key()}
+					o.Val, o.VLen = g.val()
+				}
+				if o.VLen > 600 {
+					o.VLen = 20 + o.VLen%500
+				}
+				b.Sub = append(b.Sub, o)
+			}
+			g.add(b)
+		}
+	}
+	mc := writers + 1
+	nm := g.r.IntN(4)
+	for i := 0; i < nm; i++ {
+		if g.r.IntN(2) == 0 {
+			g.add(DBOp{C: mc, K: "flush"})
+		} else {
+			g.add(DBOp{C: mc, K: "wait", N: 1 + g.r.IntN(50)})
+		}
+	}
+}
+
+// matchRecoveredConc is the crash oracle for concurrent committers: the state
+// recovered from a crash before disk mutation k must equal the model after a
+// prefix, in sequence-number order, of the groups whose commit had begun by k,
+// and the prefix must contain every group acknowledged as durable by k (a
+// returned Sync commit or SyncWait, or a group acknowledged before a Flush
+// that had returned by k) - hence also everything sequenced before it.
+func (h *dbHarness) matchRecoveredConc(k int, pts []kvmodel.KV, spans []kvmodel.Span) (*recoverMatch, string) {
+	var cand []*cGroup
+	for _, g := range h.conc.groups {
+		if g.seq != 0 && g.startIdx <= k {
+			cand = append(cand, g)
+		}
+	}
+	sort.Slice(cand, func(i, j int) bool { return cand[i].seq < cand[j].seq })
+	m := kvmodel.New()
+	lo := 0
+	for i, g := range cand {
+		gg := *g.g
+		gg.ID = i + 1
+		m.Append(&gg)
+		durable := g.ackIdx >= 0 && g.ackIdx <= k && g.sync
+		if g.flushedAt > 0 && g.flushedAt <= k {
+			durable = true
+		}
+		if durable {
+			lo = i + 1
+		}
+	}
+	first := ""
+	for j := len(cand); j >= lo; j-- {
+		d := diffState(m.StateAt(j), pts, spans)
+		if d == "" {
+			return &recoverMatch{j: j}, ""
+		}
+		if first == "" {
+			first = d
+		}
+	}
+	desc := fmt.Sprintf("crash before disk mutation %d with %d concurrent committers: the recovered state matches no prefix (in sequence-number order) of the %d groups begun by then that contains all %d groups up to the last one acknowledged as durable; vs all of them: %s", k, h.cfg.Clients-1, len(cand), lo, first)
+	if lo > 0 {
+		g := cand[lo-1]
+		desc += fmt.Sprintf("; last acknowledged-durable group: client %d seq=%d count=%d sync=%v acknowledged at disk index %d ops %v", g.client, g.seq, g.count, g.sync, g.ackIdx, g.g.Ops)
+	}
+	return nil, desc
 }
